@@ -162,3 +162,20 @@ package haproxy
 //@   at call execCommand#1 assert two: len($arg2) == 2
 //@   at call cmdResponseOK#1 assert commit: $arg0 == "commit ssl cert" && $arg1 == msg[1]
 //@ end
+
+// ---------------------------------------------------------------------------
+// C05 — every shard reported as changed is rendered and written
+
+//@ count TmplWrite    = (*template.Config).Write
+//@ count TmplWriteOut = (*template.Config).WriteOutput
+//@ count ChgShards    = (*types.Backends).ChangedShards
+//@ count BuildShard   = (*types.Backends).BuildSortedShard
+
+//@ func (*instance).writeConfig
+//@   props C05
+//@   ensures once:   calls(ChgShards) <= 1
+//@   ensures every:  result == nil && calls(ChgShards) == 1 ==> calls(BuildShard) == len(last(ChgShards))
+//@   loop 2 invariant each: 0 <= $idx(2) && $idx(2) <= len(last(ChgShards)) && calls(BuildShard) == $idx(2) && calls(ChgShards) == 1 && shards == last(ChgShards)
+//@   at call ChangedShards#1 assert main-first: calls(TmplWrite) == 3
+//@   at call BuildSortedShard#1 assert own-shard: $arg1 == shards[$idx(2)-1]
+//@ end
